@@ -260,6 +260,14 @@ func checkR(c RCase, r *vf.R) error {
 		}
 	}
 	tolSVG := 6*rel*mabs + 8*rel*rmax*10 + 1e-12
+	// an arc whose end points are closer than the printed resolution is a full ellipse or nothing depending on how the
+	// two points round (SVG: identical end points omit the segment): its meaning is not stable under printing
+	for _, sg := range segs {
+		if sg.Cmd == oracle.ArcTo && sg.P0.Dist(sg.End()) <= 4*rel*mabs {
+			r.Class("arc-end-points-within-printed-resolution(skipped)")
+			return nil
+		}
+	}
 	// arcs whose radii barely reach their chord: the centre moves with the square root of a perturbation of the
 	// radii (inherent to the end-point parametrisation, not a printing error)
 	half := 0.0
@@ -464,6 +472,13 @@ func checkP(c PCase, r *vf.R) error {
 	r.ClassIf(rerr == nil, "valid-by-reference")
 	r.ClassIf(perr == nil, "accepted")
 	if rerr == nil && len(strings.TrimSpace(c.S)) > 0 {
+		for _, s := range ref {
+			// a rotation of 1e10 degrees and more has no digits left after reduction to one turn
+			if s.Cmd == oracle.ArcTo && math.Abs(s.Args[2]) > 1e6 {
+				r.Class("huge-arc-rotation(no comparison)")
+				return nil
+			}
+		}
 		for _, s := range ref {
 			for _, v := range s.Args {
 				if math.IsInf(v, 0) || math.IsNaN(v) {
